@@ -98,7 +98,7 @@ def gen_queries(g, h):
             t = r.choice(sorted(orc.tables))
             d = orc.tables[t][0]
             nonkey = [i for i, c in enumerate(d.cols) if not c[3]]
-            kind = r.choice(["bag", "bag", "grp", "agg", "ord", "join", "join", "pkord", "pkrange"])
+            kind = r.choice(["bag", "bag", "grp", "agg", "ord", "join", "join", "pkord", "pkrange", "pkrangeord"])
             cols = [c[0] for c in d.cols]
             if kind == "bag":
                 p = g.gen_pred(d)
@@ -138,6 +138,12 @@ def gen_queries(g, h):
                 sql = "select %s from %s order by %s" % (", ".join(cols), t, cols[0])
             elif kind == "pkrange" and d.cols[0][3]:
                 sql = "select %s from %s where %s %s %d" % (", ".join(cols), t, cols[0], r.choice(["<", ">=", "="]), r.choice(sg.INT_DOM))
+            elif kind == "pkrangeord" and d.cols[0][3] and d.cols[0][1] == "INT":
+                # key range AND key order in ONE statement: the planner pushes the range into the scan
+                # and drops the ORDER BY, so the scan must be both range-filtered and merging (keys may
+                # repeat here: compared on the key column's sequence, no LIMIT)
+                sql = "select %s from %s where %s %s %d order by %s" % (
+                    ", ".join(cols), t, cols[0], r.choice(["<", "<=", ">=", ">"]), r.choice(sg.INT_DOM), cols[0])
             else:
                 continue
             g.count("query:" + kind)
@@ -152,24 +158,32 @@ def gen_range_hist(g, hid):
     r = g.r
     d = sg.TableDef("t0", [("a", "INT", True, True), ("b", "INT", False, False)] +
                     ([("c", "STRING", False, False)] if r.random() < 0.4 else []))
-    opts = (r.choice([256 << 20, 1 << 20, 16384]), r.choice([32, 64, 128, 1024, 16384]), r.choice([0, 1]), 1)
+    opts = (r.choice([256 << 20, 1 << 20, 16384, 2048, 512]), r.choice([32, 64, 128, 1024, 16384]), r.choice([0, 1]), 1)
+    # a second keyed table for primary-key joins under a key range
+    two = r.random() < 0.5
+    d1 = sg.TableDef("t1", [("a", "INT", True, True), ("d", "INT", False, False)])
     g.count("range-region:block=%d" % opts[1])
     steps = [{"k": "create", "def": d, "sql": d.sql()}]
     queries = []
     used = set()
     pool = list(range(-3000, 60000))
 
-    def ins(n):
+    used1 = set()
+
+    def ins(n, dd=None):
+        dd = dd or d
+        seen = used if dd is d else used1
         ks = []
         while len(ks) < n:
-            k = r.choice(pool)
-            if k not in used:
-                used.add(k)
+            # the second table draws half of its keys from the first one's (so that the join is not empty)
+            k = r.choice(sorted(used)) if (dd is not d and used and r.random() < 0.5) else r.choice(pool)
+            if k not in seen:
+                seen.add(k)
                 ks.append(k)
-        rows = [tuple([k] + [g.gen_val(c[1], c[2]) for c in d.cols[1:]]) for k in ks]
-        sql = "insert into t0 values %s" % ", ".join(
-            "(" + ", ".join(sg.sql_lit(v, c[1]) for v, c in zip(row, d.cols)) + ")" for row in rows)
-        return {"k": "insert", "table": "t0", "rows": rows, "def": d, "sql": sql}
+        rows = [tuple([k] + [g.gen_val(c[1], c[2]) for c in dd.cols[1:]]) for k in ks]
+        sql = "insert into %s values %s" % (dd.name, ", ".join(
+            "(" + ", ".join(sg.sql_lit(v, c[1]) for v, c in zip(row, dd.cols)) + ")" for row in rows))
+        return {"k": "insert", "table": dd.name, "rows": rows, "def": dd, "sql": sql}
 
     def ask():
         k = len(steps) - 1
@@ -186,13 +200,47 @@ def gen_range_hist(g, hid):
         if r.random() < 0.3:
             lo, hi = sorted([r.choice(keys), r.choice(keys)])
             queries.append((k, "select a from t0 where a >= %d and a < %d" % (lo, hi), "pkrange", None))
+        # key range AND key order in one statement (keys are unique here: the answer is ONE sequence,
+        # LIMIT included), over row-sets whose key ranges interleave (every INSERT draws from the whole pool)
+        for _ in range(r.randint(1, 3)):
+            c = r.choice([r.choice(keys), r.choice(keys) + 1, keys[len(keys) // 2], keys[0], keys[-1]])
+            form = r.random()
+            if form < 0.5:
+                q = "select a, b from t0 where a %s %d order by a" % (r.choice([">=", ">", "<", "<="]), c)
+            elif form < 0.8:
+                q = "select a, b from t0 where a %s %d order by a limit %d" % (r.choice([">=", ">", "<", "<="]), c, r.choice([1, 3, 10, 50]))
+            else:
+                lo, hi = sorted([r.choice(keys), r.choice(keys)])
+                q = "select b from t0 where a > %d and a < %d order by a" % (lo, hi) if r.random() < 0.5 else \
+                    "select a from t0 where a >= %d and a <= %d order by a" % (lo, hi)
+            queries.append((k, q, "pkrangeseq", None))
+            g.count("query:pkrange-orderby")
+        if two and used1:
+            for _ in range(r.randint(1, 2)):
+                c = r.choice([r.choice(keys), keys[len(keys) // 2], keys[0] - 1])
+                op = r.choice([">=", ">", "<", "<="])
+                q = r.choice([
+                    "select p.a, p.b, q.d from t0 p join t1 q on p.a = q.a where p.a %s %d" % (op, c),
+                    "select count(*) from t0 p join t1 q on p.a = q.a where p.a %s %d" % (op, c),
+                    "select p.a, q.d from t0 p join t1 q on p.a = q.a where q.a %s %d order by p.a" % (op, c)])
+                queries.append((k, q, "pkjoinseq" if " order by " in q else "pkjoin", None))
+                g.count("query:pkjoin-range")
 
     steps.append(ins(r.choice([40, 300, 700, 1100, 2300])))
+    # mostly: more INSERTs before the first questions, so that the table starts with >= 2 row-sets of
+    # interleaving key ranges
+    for _ in range(r.choice([0, 1, 1, 2, 3])):
+        steps.append(ins(r.choice([4, 8, 40, 300])))
+    if two:
+        steps.append({"k": "create", "def": d1, "sql": d1.sql()})
+        for _ in range(r.choice([1, 2, 3])):
+            steps.append(ins(r.choice([3, 8, 40, 200]), d1))
+    g.count("range-region:initial-inserts=%d" % len([x for x in steps if x["k"] == "insert" and x["table"] == "t0"]))
     ask()
     for _ in range(r.randint(1, 4)):
         x = r.random()
         if x < 0.35:
-            steps.append(ins(r.choice([5, 60, 300, 1100])))
+            steps.append(ins(r.choice([5, 60, 300, 1100]), d1 if (two and r.random() < 0.3) else d))
         elif x < 0.6:
             p = g.gen_pred(d, 1)
             ps = sg.pred_sql(p, d)
@@ -228,7 +276,9 @@ def same_result(kind, x, y):
         return True
     if sorted(rx) != sorted(ry):
         return False
-    return kind not in ("ord", "pkord") or [v[0] for v in rx] == [v[0] for v in ry]
+    if kind in ("pkrangeseq", "pkjoinseq"):
+        return rx == ry             # unique keys: the ORDER BY answer is one sequence
+    return kind not in ("ord", "pkord", "pkrangeord") or [v[0] for v in rx] == [v[0] for v in ry]
 
 
 ROW_RE = re.compile(r"\(([^)]*)\)")
@@ -342,7 +392,7 @@ def run(ck):
                 noopt, plan_m, plan_d = (parts + ["", "", ""])[2:5]
                 _, sql, kind, meta = h["queries"][int(qi)]
                 ca, ra = parse_result(a)
-                tagged = kind in ("pkord", "pkrange")
+                tagged = kind in ("pkord", "pkrange", "pkrangeord", "pkrangeseq", "pkjoin", "pkjoinseq")
                 T["tagged" if tagged else "queries"] += 1
                 okq = same_result(kind, a, b)
                 if ra:
@@ -413,6 +463,17 @@ def run(ck):
                                       sql, a[:120], b[:120], hm, hd), replay=qrp)
                     else:
                         bad_here = bad_here or ("query `%s` (join; NULL keys on both sides: %s; HashJoin in memory plan: %s, in disk plan: %s)" % (sql, null_keys, hm, hd), a[:200], b[:200])
+                elif kind in ("pkrangeord", "pkrangeseq", "pkjoin", "pkjoinseq"):
+                    # key range + key order / primary-key join under a key range: no recorded mechanism
+                    # excuses a difference (C12's and C13's findings are repaired)
+                    cb, rb = parse_result(b)
+                    same_bag = ra is not None and rb is not None and sorted(ra) == sorted(rb)
+                    T["tagged_bad"] += 1
+                    T["io_bad"] += 1
+                    ck.report("engines:query:pk-range-order" if kind in ("pkrangeord", "pkrangeseq") else "engines:query:pk-join-range",
+                              "query `%s` differs between engines (%s): memory %s, disk %s, disk with the optimizer off %s; table facts %s" % (
+                                  sql, "same rows, different ORDER BY sequence" if same_bag else "different rows",
+                                  a[:160], b[:160], noopt[:160], facts), replay=qrp)
                 else:
                     bad_here = bad_here or ("query `%s`" % sql, a[:200], b[:200])
             if bad_here:
@@ -459,7 +520,7 @@ def run(ck):
     ck.coverage.update({
         "evaluations": len(hists), "steps": T["steps"], "queries": T["queries"], "tagged_pk_queries": T["tagged"],
         "distinct_nontrivial": len(distinct),
-        "rule": "statement sequences (DDL, INSERT incl. >1024-row batches, DELETE, forced compaction/vacuum/reopen on the disk side) x disk layout options, each step followed by SELECT * of every table and 1-3 generated queries on both engines (on keyed tables also pk-ordered scans and key-range scans, plus range scans aimed at block boundaries); `outcome-both:*` in the distribution = statement outcomes OBSERVED identically on both engines (insert:not-null-rejected = INSERT with NULL in a NOT NULL / key column refused by both); distinct_nontrivial = distinct (query, result) pairs with a non-empty result",
+        "rule": "statement sequences (DDL, INSERT incl. >1024-row batches, DELETE, forced compaction/vacuum/reopen on the disk side) x disk layout options, each step followed by SELECT * of every table and 1-3 generated queries on both engines (on keyed tables also pk-ordered scans, key-range scans, range scans aimed at block boundaries, and - round 6 - key range AND key order in one statement `WHERE pk <range> ORDER BY pk [LIMIT n]` compared as sequences plus primary-key joins under a key range, over tables built by several INSERTs with interleaving key ranges and small row-set sizes); `outcome-both:*` in the distribution = statement outcomes OBSERVED identically on both engines (insert:not-null-rejected = INSERT with NULL in a NOT NULL / key column refused by both); distinct_nontrivial = distinct (query, result) pairs with a non-empty result",
         "samples": samples,
         "model_vs_impl": {"compared": T["mi"], "disagree": T["mi_bad"]},
         "impl_vs_oracle": {"compared": T["io"], "disagree": T["io_bad"], "what": "memory engine vs disk engine"},
